@@ -11,17 +11,26 @@
    * `flush`: a segment with zero rows is dropped; otherwise, UNDER THE MUTEX, it is pushed to
      `flushed.segments` (its position = its index).  Also called by `poll_finalize_execute`.
    * `init_parallel_scan_states n`: state j starts at segment index j, the shared counter at n.
+     COLLECTION level (`ConcurrentColumnCollection::init_parallel_scan_states`, still used by Materialize and
+     the nested-loop join): `segment_limit = None`.  TABLE level (`DataTable::init_parallel_scan_states`,
+     storage/datatable.rs, since commit 2e9960218): every state gets `segment_limit = Some n` where
+     n = `num_flushed_segments()` AT THE CREATION OF THE SCAN STATES.
    * one `parallel_scan` call: if no current segment, `segments.get(next_segment_idx)` is read UNDER THE
-     MUTEX AT THE TIME OF THE CALL; `None` -> 0 rows (memory_scan answers `Exhausted`, the state is never
-     polled again); `Some` -> that segment becomes current and next index := fetch_add(counter).  Then one
-     chunk of the current segment is emitted.
+     MUTEX AT THE TIME OF THE CALL and kept only if `next_segment_idx < limit` (no limit: always kept);
+     `None` -> 0 rows (memory_scan answers `Exhausted`, the state is never polled again); `Some` -> that segment
+     becomes current and next index := fetch_add(counter).  Then (a slice of) one chunk of the current
+     segment is emitted: min(rows left in the chunk, capacity of the output batch) rows (commit 34b7d5265,
+     `chunk_row_offset`); a call that emits 0 rows makes memory_scan answer `Exhausted`.
+   `Old.self_insert` is the table scan as it was before 2e9960218 (no limit): the witnesses of the two
+   self-insert defects are kept as lemmas about it.
    A row is an abstract identifier (N).  `fetched` is a ghost log of the segment indexes handed out. *)
 From Coq Require Import List NArith Arith Bool.
 Import ListNotations.
 
 Definition row := N.
 
-Record cfg := { segsz : nat; cap : nat }.          (* segment_size (chunks), chunk_capacity (rows) *)
+Record cfg := { segsz : nat; cap : nat; ocap : nat }.   (* segment_size (chunks), chunk_capacity (rows),
+                                                         write capacity of the scan's output batch (batch_size) *)
 
 Record appender := { a_buf : list row;             (* rows in the local, unflushed segment *)
                      a_touched : bool;            (* the local segment has a chunk *)
@@ -30,6 +39,8 @@ Record appender := { a_buf : list row;             (* rows in the local, unflush
 
 Record scanner := { s_next : nat;                  (* next_segment_idx *)
                     s_cur : option (list row);    (* rows of the current segment not yet emitted *)
+                    s_off : nat;                  (* chunk_row_offset: rows already taken from the current chunk *)
+                    s_limit : option nat;         (* segment_limit *)
                     s_done : bool;                (* answered Exhausted *)
                     s_out : list (list row) }.    (* batches emitted, most recent first *)
 
@@ -40,7 +51,8 @@ Record coll := { segs : list (list row);           (* flushed.segments *)
                  fetched : list nat }.            (* ghost *)
 
 Definition fresh_app : appender := {| a_buf := []; a_touched := false; a_count := 0; a_fin := false |}.
-Definition fresh_scan (j : nat) : scanner := {| s_next := j; s_cur := None; s_done := false; s_out := [] |}.
+Definition fresh_scan (lim : option nat) (j : nat) : scanner :=
+  {| s_next := j; s_cur := None; s_off := 0; s_limit := lim; s_done := false; s_out := [] |}.
 
 (* segment.rs: number of chunks of a local segment holding r rows *)
 Definition nchunks (cp : nat) (touched : bool) (r : nat) : nat :=
@@ -86,6 +98,24 @@ Definition do_finalize (c : coll) (i : nat) : option coll :=
     Some (set_apps c sg (replace i {| a_buf := a_buf a2; a_touched := a_touched a2; a_count := a_count a2; a_fin := true |} (apps c)))
   end.
 
+(* rows left in the current chunk; rows emitted by one call *)
+Definition chunk_rem (k : cfg) (off : nat) (rem : list row) : nat := Nat.min (cap k - off) (length rem).
+Definition slice (k : cfg) (off : nat) (rem : list row) : nat := Nat.min (chunk_rem k off rem) (ocap k).
+
+Definition in_limit (s : scanner) : bool :=
+  match s_limit s with None => true | Some l => s_next s <? l end.
+
+(* the scan state after emitting from `rem` (rows of the current segment still to emit, the current chunk
+   already consumed up to `off`), with next segment index nx *)
+Definition emit_from (k : cfg) (s : scanner) (nx : nat) (rem : list row) (off : nat) : scanner :=
+  let e := slice k off rem in
+  {| s_next := nx; s_cur := Some (skipn e rem);
+     s_off := if e =? chunk_rem k off rem then 0 else off + e;
+     s_limit := s_limit s; s_done := (e =? 0); s_out := firstn e rem :: s_out s |}.
+
+Definition set_scans (c : coll) (cn : nat) (f : list nat) (sc : list scanner) : coll :=
+  {| segs := segs c; counter := cn; apps := apps c; scans := sc; fetched := f |}.
+
 (* one `parallel_scan` call *)
 Definition do_scan (k : cfg) (c : coll) (j : nat) : option coll :=
   match nth_error (scans c) j with
@@ -94,19 +124,14 @@ Definition do_scan (k : cfg) (c : coll) (j : nat) : option coll :=
     if s_done s then None else
     let cur := match s_cur s with Some [] => None | x => x end in
     match cur with
-    | Some rem =>
-      Some {| segs := segs c; counter := counter c; apps := apps c; fetched := fetched c;
-              scans := replace j {| s_next := s_next s; s_cur := Some (skipn (cap k) rem); s_done := false;
-                                    s_out := firstn (cap k) rem :: s_out s |} (scans c) |}
+    | Some rem => Some (set_scans c (counter c) (fetched c) (replace j (emit_from k s (s_next s) rem (s_off s)) (scans c)))
     | None =>
-      match nth_error (segs c) (s_next s) with
+      match (if in_limit s then nth_error (segs c) (s_next s) else None) with
       | None =>
-        Some {| segs := segs c; counter := counter c; apps := apps c; fetched := fetched c;
-                scans := replace j {| s_next := s_next s; s_cur := None; s_done := true; s_out := s_out s |} (scans c) |}
+        Some (set_scans c (counter c) (fetched c)
+                (replace j {| s_next := s_next s; s_cur := None; s_off := 0; s_limit := s_limit s; s_done := true; s_out := s_out s |} (scans c)))
       | Some seg =>
-        Some {| segs := segs c; counter := S (counter c); apps := apps c; fetched := s_next s :: fetched c;
-                scans := replace j {| s_next := counter c; s_cur := Some (skipn (cap k) seg); s_done := false;
-                                      s_out := firstn (cap k) seg :: s_out s |} (scans c) |}
+        Some (set_scans c (S (counter c)) (s_next s :: fetched c) (replace j (emit_from k s (counter c) seg 0) (scans c)))
       end
     end
   end.
@@ -154,13 +179,34 @@ Fixpoint appended (ls : list label) : list row :=
 Definition writers (sg : list (list row)) (n : nat) : coll :=
   {| segs := sg; counter := 0; apps := repeat fresh_app n; scans := []; fetched := [] |}.
 
-(* `init_parallel_scan_states p` on the current collection *)
+(* `ConcurrentColumnCollection::init_parallel_scan_states p`: no segment limit *)
 Definition start_scan (p : nat) (c : coll) : coll :=
-  {| segs := segs c; counter := p; apps := apps c; scans := map fresh_scan (seq 0 p); fetched := [] |}.
+  {| segs := segs c; counter := p; apps := apps c; scans := map (fresh_scan None) (seq 0 p); fetched := [] |}.
+
+(* `DataTable::init_parallel_scan_states p`: the segment count is captured when the states are created *)
+Definition start_table_scan (p : nat) (c : coll) : coll :=
+  {| segs := segs c; counter := p; apps := apps c;
+     scans := map (fresh_scan (Some (length (segs c)))) (seq 0 p); fetched := [] |}.
 
 (* `INSERT INTO t SELECT * FROM t` with p partitions on a table holding `sg` *)
 Definition self_insert (sg : list (list row)) (p : nat) : coll :=
+  start_table_scan p (writers sg p).
+
+(* the same statement before commit 2e9960218: the table scan had no segment limit *)
+Module Old.
+Definition self_insert (sg : list (list row)) (p : nat) : coll :=
   start_scan p (writers sg p).
+End Old.
+
+(* the statement's own actions: partition j pipes a batch from its scan state to its appender, or finalizes *)
+Definition is_stmt_label (l : label) : bool :=
+  match l with LPipe _ | LFinalize _ => true | _ => false end.
+
+(* termination measure of a table scan over L segments holding R rows, p partitions *)
+Definition live_scans (c : coll) : nat := length (filter (fun s => negb (s_done s)) (scans c)).
+Definition live_apps (c : coll) : nat := length (filter (fun a => negb (a_fin a)) (apps c)).
+Definition measure (R L : nat) (c : coll) : nat :=
+  S R * (length (scans c) + L - counter c) + length (cur_rows c) + live_scans c + live_apps c.
 
 Definition complete (c : coll) : bool := all_done c && all_finalized c.
 
